@@ -189,6 +189,9 @@ def run_case(case):
         if len(viol) < 5:
             viol.append({"key": "C17/%s:%s" % (key, kindtag), "msg": "[%s, %s, depth %d] %s" % (case["route"], case["when"], case["depth"], msg)})
 
+    if case["when"] == "uninitialised" and case["seed"] % 2 == 0:
+        # a declared species that was never given a value (documented default 0, applied at initialisation)
+        case = dict(case, spec=dict(case["spec"], species=list(case["spec"]["species"]) + ["Zu"]))
     try:
         M = build(case, initialize=(case["when"] != "uninitialised"))
     except Exception as e:
